@@ -101,6 +101,10 @@ def run(ctx):
                     _one(ctx, py, kind, wa, lever, rates)
     ctx.guard(_generators, ctx, py)
 
+    # frame of the modules under contract (no state kept between calls, arguments left alone): same analysis as C19
+    from props import C19 as _C19
+    ctx.guard(_C19.frame_obligations, ctx, py, "C06", {'error_model', 'measurements', 'transform'})
+
 
 # -----------------------------------------------------------------------------------------------
 def _absent(ctx, py):
